@@ -58,6 +58,14 @@ def regime_tags(diff, args):
     if diff.crys.dim == 2: tags.append('dim2')
     if diff.Nthermo >= 2: tags.append('Nthermo2')
     if diff.N > 1: tags.append('multisite')
+    # fastest exchange rate relative to the fastest bare vacancy jump (transition states relative to the lowest states)
+    if len(bFT2) and len(bFT0):
+        r2 = np.exp(-(np.min(bFT2) - np.min(bFS) - np.min(bFV) - min(0., np.min(bFSV, initial=0.))))
+        r0 = np.exp(-(np.min(bFT0) - np.min(bFV)))
+        if r2 >= 1e3 * r0: tags.append('om2/om0>=1e3')
+    # spread of all jump rates (barrier heights above the lowest vacancy / solute-vacancy state)
+    h = np.concatenate([np.asarray(bFT0) - np.min(bFV), np.asarray(bFT1) - np.min(bFS) - np.min(bFV), np.asarray(bFT2) - np.min(bFS) - np.min(bFV)])
+    if h.size and np.ptp(h) >= np.log(1e3): tags.append('rate_spread>=1e3')
     return tags
 
 
